@@ -1486,8 +1486,28 @@ func ruleFoldRet(p *Prog, r *Result) {
 			case !isC:
 				r.hit(key, p.InstrPos(ret), "the flag returned here is computed, not the constant true/false: its consumer reads true as `the returned node is a literal` and evaluates the enclosing operator on an empty pair")
 			case bv:
-				al, ok := stripConv(retVal(ret, 0)).(*ssa.Alloc)
-				r.add(ok && literalNodeTypes[typeName(al.Type())], key, p.InstrPos(ret), "true is returned together with a freshly built literal node")
+				fresh := p.freshLiteralNode(retVal(ret, 0), 0)
+				if c, isCall := stripConv(retVal(ret, 0)).(*ssa.Call); isCall && fresh {
+					// a helper that answers nil for `no literal`: true only behind the test that it did not
+					mayNil := false
+					if h := c.Call.StaticCallee(); h != nil {
+						for _, hb := range h.Blocks {
+							if hr := retOf(hb); hr != nil && isNilConst(retVal(hr, 0)) {
+								mayNil = true
+							}
+						}
+					}
+					if mayNil {
+						tested := false
+						for _, a := range dominatingAtoms(ret.Block()) {
+							if a.X == ssa.Value(c) && isNilConst(a.Y) && a.Op == token.NEQ {
+								tested = true
+							}
+						}
+						fresh = tested
+					}
+				}
+				r.add(fresh, key, p.InstrPos(ret), "true is returned together with a freshly built literal node")
 			default:
 				r.ok(key, p.InstrPos(ret), "not a literal: false")
 			}
@@ -1910,4 +1930,38 @@ func ruleLimitGuard(p *Prog, r *Result) {
 		})
 	}
 	r.note("sums_of_two_user_numbers", sums)
+}
+
+// freshLiteralNode: v is a literal node allocated here, or the result of a package helper every non-nil return of
+// which is one (foldedArithLiteral(left, pos, ret): nil when the language has no literal for the value).
+func (p *Prog) freshLiteralNode(v ssa.Value, depth int) bool {
+	if depth > 3 {
+		return false
+	}
+	switch x := stripConv(v).(type) {
+	case *ssa.Alloc:
+		return literalNodeTypes[typeName(x.Type())]
+	case *ssa.Call:
+		g := x.Call.StaticCallee()
+		if g == nil || !p.InPkg(g) || len(g.Blocks) == 0 || g.Signature.Results().Len() != 1 {
+			return false
+		}
+		any := false
+		for _, b := range g.Blocks {
+			ret := retOf(b)
+			if ret == nil {
+				continue
+			}
+			rv := retVal(ret, 0)
+			if isNilConst(rv) {
+				continue
+			}
+			if !p.freshLiteralNode(rv, depth+1) {
+				return false
+			}
+			any = true
+		}
+		return any
+	}
+	return false
 }
